@@ -404,6 +404,65 @@ pub open spec fn asm_inv(c: &Context, o: &Output) -> bool {
         toks(final(out).data@.last()@) == @TOKS(L:set N:n), //# C12,C11 asm.emitted_line_is_the_directive_in_the_loaders_syntax
 //@end
 
+// ---- memory operands: [disp] / [reg] / [base,disp] / [index,disp] / [base,index,disp], optional segment override `seg:`;
+// the text handed on is the operand as written (a missing displacement of the based-indexed form is rendered as 0)
+//@action src/lib/preprocessor/preprocessor.rs memory_addr = "[", u_word_num, "]" as as_mem_direct
+//@contract
+//@fmttoks
+//@result res
+//@dropunused
+//@fmtvar s:String
+    ensures
+        sr is Some ==> toks(res@) == @TOKS(P:sr->0 L:: L:[ N:n L:]), //# C04,C11 asm.memory_operand_text_is_the_source_operand_in_the_interpreters_syntax
+        sr is None ==> toks(res@) == @TOKS(L:[ N:n L:]), //# C04,C11 asm.memory_operand_text_is_the_source_operand_in_the_interpreters_syntax
+//@end
+
+//@action src/lib/preprocessor/preprocessor.rs memory_addr = "[", base_index_reg, "]" as as_mem_indirect
+//@contract
+//@fmttoks
+//@result res
+//@dropunused
+//@fmtvar s:String
+    ensures
+        sr is Some ==> toks(res@) == @TOKS(P:sr->0 L:: L:[ P:r L:]), //# C04,C11 asm.memory_operand_text_is_the_source_operand_in_the_interpreters_syntax
+        sr is None ==> toks(res@) == @TOKS(L:[ P:r L:]), //# C04,C11 asm.memory_operand_text_is_the_source_operand_in_the_interpreters_syntax
+//@end
+
+//@action src/lib/preprocessor/preprocessor.rs memory_addr = "[", base_reg, ",", s_word_num, "]" as as_mem_based
+//@contract
+//@fmttoks
+//@result res
+//@dropunused
+//@fmtvar s:String
+    ensures
+        sr is Some ==> toks(res@) == @TOKS(P:sr->0 L:: L:[ P:r L:, N:n L:]), //# C04,C11 asm.memory_operand_text_is_the_source_operand_in_the_interpreters_syntax
+        sr is None ==> toks(res@) == @TOKS(L:[ P:r L:, N:n L:]), //# C04,C11 asm.memory_operand_text_is_the_source_operand_in_the_interpreters_syntax
+//@end
+
+//@action src/lib/preprocessor/preprocessor.rs memory_addr = "[", index_reg, ",", s_word_num, "]" as as_mem_indexed
+//@contract
+//@fmttoks
+//@result res
+//@dropunused
+//@fmtvar s:String
+    ensures
+        sr is Some ==> toks(res@) == @TOKS(P:sr->0 L:: L:[ P:r L:, N:n L:]), //# C04,C11 asm.memory_operand_text_is_the_source_operand_in_the_interpreters_syntax
+        sr is None ==> toks(res@) == @TOKS(L:[ P:r L:, N:n L:]), //# C04,C11 asm.memory_operand_text_is_the_source_operand_in_the_interpreters_syntax
+//@end
+
+//@action src/lib/preprocessor/preprocessor.rs memory_addr = "[", base_reg, ",", index_reg, "]" as as_mem_based_indexed
+//@contract
+//@fmttoks
+//@result res
+//@dropunused
+//@fmtvar s:String n:i16
+    ensures
+        sr is Some && k is Some ==> toks(res@) == @TOKS(P:sr->0 L:: L:[ P:b L:, P:i L:, N:k->0 L:]), //# C04,C11 asm.memory_operand_text_is_the_source_operand_in_the_interpreters_syntax
+        sr is Some && k is None ==> toks(res@) == @TOKS(P:sr->0 L:: L:[ P:b L:, P:i L:, N:0 L:]), //# C04,C11 asm.memory_operand_text_is_the_source_operand_in_the_interpreters_syntax
+        sr is None && k is Some ==> toks(res@) == @TOKS(L:[ P:b L:, P:i L:, N:k->0 L:]), //# C04,C11 asm.memory_operand_text_is_the_source_operand_in_the_interpreters_syntax
+        sr is None && k is None ==> toks(res@) == @TOKS(L:[ P:b L:, P:i L:, N:0 L:]), //# C04,C11 asm.memory_operand_text_is_the_source_operand_in_the_interpreters_syntax
+//@end
+
 // an OFFSET used as a byte constant must fit in a byte
 //@action src/lib/preprocessor/preprocessor.rs u_byte_num = offset as as_offset_as_byte
 //@contract
